@@ -308,7 +308,7 @@ void reb_collision_search(struct reb_simulation* const r){
                 struct reb_particle p1 = particles[i];
                 vmax2 = MAX(vmax2, p1.vx*p1.vx + p1.vy*p1.vy + p1.vz*p1.vz);
             }
-            double maxdrift = r->dt_last_done*sqrt(vmax2);
+            double maxdrift = fabs(r->dt_last_done)*sqrt(vmax2);
             // Update and simplify tree. 
             // Prepare particles for distribution to other nodes. 
             reb_simulation_update_tree(r);          
@@ -331,7 +331,7 @@ void reb_collision_search(struct reb_simulation* const r){
                 collision_nearest.p2 = -1;
                 double p1_r = p1.r;
                 // Add drift during last timestep
-                double p1_r_plus_dtv = p1_r + r->dt_last_done*sqrt(p1.vx*p1.vx + p1.vy*p1.vy + p1.vz*p1.vz);
+                double p1_r_plus_dtv = p1_r + fabs(r->dt_last_done)*sqrt(p1.vx*p1.vx + p1.vy*p1.vy + p1.vz*p1.vz);
                 // Loop over ghost boxes.
                 for (int gbx=-N_ghost_xcol; gbx<=N_ghost_xcol; gbx++){
                 for (int gby=-N_ghost_ycol; gby<=N_ghost_ycol; gby++){
@@ -645,7 +645,8 @@ static void reb_tree_check_for_overlapping_trajectories_in_cell(struct reb_simul
         double dy = gb.y - c->y;
         double dz = gb.z - c->z;
         double r2 = dx*dx + dy*dy + dz*dz;
-        double rp  = p1_r_plus_dtv + maxdrift + 0.86602540378443*c->w;
+        // The other particle's radius is at most max_radius1, or this particle's own search (with its larger radius) finds the pair.
+        double rp  = p1_r_plus_dtv + r->max_radius1 + maxdrift + 0.86602540378443*c->w;
         // Check if we need to decent into daughter cells
         if (r2 < rp*rp ){
             for (int o=0;o<8;o++){
